@@ -728,6 +728,7 @@ pub fn run_build<D: Distance>(
     limit: u64,
     loop_limit: u64,
     cancel_plan: Option<(u8, u64)>,
+    warmup: bool,
 ) -> BuildOutcome {
     #[cfg(arroy_verif)]
     {
@@ -737,6 +738,8 @@ pub fn run_build<D: Distance>(
     let polls = AtomicU64::new(0);
     let tripped = std::sync::atomic::AtomicBool::new(false);
     let planned = std::sync::atomic::AtomicBool::new(false);
+    let warm = std::sync::atomic::AtomicBool::new(warmup);
+    let warm_failed = std::sync::atomic::AtomicBool::new(false);
     let step_now = std::sync::atomic::AtomicU8::new(0);
     let polls_in_step = AtomicU64::new(0);
     let mut rng = StdRng::seed_from_u64(opts.rng_seed);
@@ -757,6 +760,9 @@ pub fn run_build<D: Distance>(
                 step_now.store(pr.main as u8, Ordering::Relaxed);
             });
             b.cancel(|| {
+                if warm.load(Ordering::Relaxed) {
+                    return true;
+                }
                 let p = polls.fetch_add(1, Ordering::Relaxed);
                 if p > limit {
                     tripped.store(true, Ordering::Relaxed);
@@ -777,9 +783,30 @@ pub fn run_build<D: Distance>(
                 }
                 false
             });
+            if warmup {
+                // the same builder object first meets a cancellation at its very first poll (nothing has been
+                // touched yet, the crate's own test retries in the same transaction), then the fault is lifted:
+                // the retry must be an ordinary build with the options that were configured
+                let first = b.build(wtxn);
+                warm.store(false, Ordering::Relaxed);
+                if !matches!(first, Err(arroy::Error::BuildCancelled)) {
+                    warm_failed.store(true, Ordering::Relaxed);
+                    return first;
+                }
+            }
             b.build(wtxn)
         })
     });
+    if warm_failed.load(Ordering::Relaxed) {
+        return BuildOutcome::Err { err: format!("a build whose callback answers true at its first poll returned {r:?} instead of BuildCancelled"), cancelled: false };
+    }
+    if warmup {
+        if let Ok(Err(arroy::Error::BuildCancelled)) = &r {
+            if !tripped.load(Ordering::Relaxed) && !planned.load(Ordering::Relaxed) {
+                return BuildOutcome::Err { err: "retrying on the same builder after the cancellation was lifted still returns BuildCancelled although the callback no longer answers true".to_string(), cancelled: false };
+            }
+        }
+    }
     let polls = polls.load(Ordering::Relaxed);
     POLLS.fetch_add(polls, Ordering::Relaxed);
     #[allow(unused_mut)]
@@ -1367,7 +1394,7 @@ impl Engine<'_> {
                 let n = model.ix[op_ix].items.len();
                 let out = with_metric!(metric, D, {
                     let w = self.writers.get::<D>(db, index, metric, dims, tmpdir);
-                    run_build::<D>(wtxn, w, opts, poll_bound(n, opts.n_trees.unwrap_or(dims) + 1, n / 200 + 2), loop_bound(n, opts.n_trees.unwrap_or(dims) + 1), Some((*cstep, *extra)))
+                    run_build::<D>(wtxn, w, opts, poll_bound(n, opts.n_trees.unwrap_or(dims) + 1, n / 200 + 2), loop_bound(n, opts.n_trees.unwrap_or(dims) + 1), Some((*cstep, *extra)), false)
                 });
                 match out {
                     BuildOutcome::Ok { .. } => {
@@ -1483,6 +1510,11 @@ impl Engine<'_> {
         let batches = if opts.memory.is_some() { n / 200 + 2 } else { 0 };
         let limit = poll_bound(n, trees_bound, batches);
         let loop_limit = loop_bound(n, trees_bound);
+        // one build in five goes through a builder that was cancelled once before (at its first poll)
+        let warmup = opts.rng_seed % 5 == 0;
+        if warmup {
+            self.c.inc("builds_on_a_reused_builder");
+        }
         #[cfg(arroy_verif)]
         {
             if ck.id_log {
@@ -1494,7 +1526,7 @@ impl Engine<'_> {
         }
         let out = with_metric!(metric, D, {
             let w = self.writers.get::<D>(db, index, metric, dims, tmpdir);
-            run_build::<D>(wtxn, w, opts, limit, loop_limit, None)
+            run_build::<D>(wtxn, w, opts, limit, loop_limit, None, warmup)
         });
         #[cfg(arroy_verif)]
         {
